@@ -44,7 +44,7 @@ CHECKS.update({
    ref="DESIGN.md section 4, C11"),
  "C06": dict(level="proof",
    text="Panic-freedom (index, slice, nil, type-assertion, explicit panic obligations) and error shape for the runtime functions under contract: all PeekingLexer operations, StatefulLexer.Next, every node's Parse, parseContext methods, parseInto/parseOne/getElidedTypes: a non-nil error is a participle.Error or comes from user code (errOK, carried through deepestError bookkeeping), lexer token positions are exact (shared with C04), the lexing functions are non-recursive (bounded stack). FormatError, lexer.formatError and the Error() methods are proved to produce [file:]line:col: + space + message whenever a position is known. The text/scanner-based lexer's errors (located, consistent line/column) are explored by a bounded stand-in.",
-   note=TRUST + "Not decided: recursion depth of the parser proper and 'never hangs' beyond the per-loop measures. Assumed: the root type's node exists in the parser's type table and is well-formed; disjunction's documented 'did not progress' panic is excluded by the property's premise; Build validates Elide() names (by inspection).",
+   note=TRUST + "Not decided: recursion depth of the parser proper and 'never hangs' beyond the per-loop measures. Assumed: the root type's node exists in the parser's type table and is well-formed; disjunction's documented 'did not progress' panic is excluded by the property's premise; Build is proved to validate every Elide() name against the symbol table of the parser's lexer, through the mapping wrapper (the Parser invariant getElidedTypes relies on; assumed at the entry points, established by the constructor).",
    ref="DESIGN.md section 4, C06"),
  "C01": dict(level="proof",
    text="Operator-local obligations only: leaves match exactly their predicate (C10); sequence runs children in list order on the same context, first-child non-match leaves everything untouched, a later one is an UnexpectedTokenError; disjunction/union try alternatives in index order on fresh branches and adopt exactly the first success; group iterates on fresh branches; negation/lookahead test on a branch (negation then takes exactly one token); capture defers exactly once iff its child produced a value; Stop's exact threshold; parseOne's trailing-token rule. The global equality 'parse result == denotational meaning' is NOT claimed. Build is proved to leave the lookahead and lexer the options chose in force, parseModifier to wrap its operand in a fresh group of exactly the modifier's mode without altering the operand, a '!' group to succeed only after consuming input, setCaseInsensitiveTokens to mark every token type whose symbol was declared case-insensitive. The whole-run statement is additionally decided within a bound by the grammar-meaning differential (bounded stand-in in the same evidence file, never counted as proved): every small grammar x input x lookahead is run through the real parser and through a reference interpreter of the ordered-choice, bounded-backtracking meaning written from the property text.",
